@@ -1,4 +1,4 @@
-HOOK_COMMITS = ["9c96253", "e0c8558", "ef21529"]
+HOOK_COMMITS = ["9c96253", "e0c8558", "ef21529", "03c9aac"]
 
 ENGINES = [
     {"name": "kq-trace", "path": "spec/KqueueTrace.tla + harness/cmd/kqrun + harness/simkq/unix + harness/cmd/extract", "serves_properties": ["C17", "C18"],
